@@ -57,6 +57,9 @@ type genMacro struct {
 	dir     *Dir
 	pasted  int
 	maxUses int
+	// pathKey: the macro's method declares this path parameter in a Path of its
+	// own; a URL that pastes the macro ends its path with {pathKey}.
+	pathKey string
 }
 
 func (g *gen) num() int { g.n++; return g.n }
@@ -646,9 +649,15 @@ func GenDoc(t *rapid.T, o GenOpts) *Doc {
 			case "urlkids":
 				vb := g.pickStr([]string{"PUT", "PATCH"}, "mverb")
 				mm := g.newDir(vb)
+				if g.chance(1, 2, "mPathKey") {
+					m.pathKey = fmt.Sprintf("mk%d", g.num())
+					pd := g.newDir("Path")
+					pd.Schema = g.flatObj(m.pathKey)
+					mm.Children = append(mm.Children, pd)
+				}
 				mm.Children = append(mm.Children, g.response("200"))
 				md.Children = append(md.Children, mm)
-				m.maxUses = 2
+				m.maxUses = 3
 			case "top":
 				m.maxUses = 1
 				tn := fmt.Sprintf("@mt%d", g.num())
@@ -683,6 +692,7 @@ func GenDoc(t *rapid.T, o GenOpts) *Doc {
 					// singleton children (Body, BaseUrl, Description, ...): the nested
 					// paste replaces the macro's own children
 					md.Children = md.Children[:1]
+					m.pathKey = prev.pathKey
 				}
 			}
 			m.dir = md
@@ -752,6 +762,16 @@ func GenDoc(t *rapid.T, o GenOpts) *Doc {
 		}
 		switch g.intn(4, "resKind") {
 		case 0, 1: // URL block with methods, possibly followed by hoisted path-bearing methods
+			var um *genMacro
+			if m := g.macroFor("urlkids"); m != nil && g.chance(1, 3, "uPaste") {
+				um = m
+				if m.pathKey != "" {
+					// the pasted method declares this parameter itself
+					base += "/{" + m.pathKey + "}"
+					_, prefixes := PathParamsOf(base)
+					declared[prefixes[len(prefixes)-1]] = true
+				}
+			}
 			u := g.newDir("URL", base)
 			if len(g.tags) > 0 && (g.chance(1, 3, "uTags") || (o.TagsHeavy && g.chance(1, 2, "uTagsHeavy"))) {
 				u.Children = append(u.Children, g.newDir("Tags", g.pickStr(g.tags, "utag")))
@@ -759,8 +779,8 @@ func GenDoc(t *rapid.T, o GenOpts) *Doc {
 			if pd := g.pathDirective(base, declared); pd != nil {
 				u.Children = append(u.Children, pd)
 			}
-			if m := g.macroFor("urlkids"); m != nil && g.chance(1, 3, "uPaste") {
-				u.Children = append(u.Children, g.paste(m))
+			if um != nil {
+				u.Children = append(u.Children, g.paste(um))
 			}
 			k := 1 + g.intn(2, "nverbs")
 			used := map[string]bool{"PUT": true, "PATCH": true} // reserved for the urlkids macros
